@@ -126,7 +126,7 @@ func TestC11(t *testing.T) {
 	cfg.MaxOps = 70
 	cfg.MaxNames = 5
 	cfg.Shapes = false
-	cfg.WatchFiles = 5
+	cfg.WatchFiles = 20 // a moved entry that is itself watched, beside its watched parent
 	cfg.POnTop = -1
 	cfg.PApi = 5
 	cfg.PRemoveNow = 12 // Remove of a watched directory between the two halves of a move
